@@ -2,7 +2,7 @@
 import itertools
 from ..facts import Program, AnalysisBroken
 from .. import q
-from . import c18, c25
+from . import c18, c25, c27
 
 CLAIM = {
     'text': 'Who-may-write and path rules on the session counters: the send counter is incremented at exactly one site, only '
@@ -23,7 +23,7 @@ EXPLANATION = (
     "later increments equals the offset added to the counter in the put (path-sensitive on immutable bool locals); R16.4 in "
     "Session::process every path from an increment of the receive counter to a return passes update_persist_seqnums; R16.5 "
     "recover_seqnums assigns both counters from Persister::get's out-parameters and start()/handle_logon apply explicit "
-    "numbers after recovery. R16.6 every send_process call outside the writer thread holds the connection spin lock unconditionally (rule of C25 R25.1); R16.7 both persisters seed the retransmission context with the session's next send number, which retrans_callback writes back into the counter (rule of C18 R18.6). NOT decided: consecutiveness/uniqueness over histories and threads.")
+    "numbers after recovery. R16.6 every send_process call outside the writer thread holds the connection spin lock unconditionally (rule of C25 R25.1); R16.7 both persisters seed the retransmission context with the session's next send number, which retrans_callback writes back into the counter (rule of C18 R18.6); R16.8 the store files are opened without O_APPEND, so the in-place rewrite of the control record lands at offset 0 (rule of C27 R27.7). NOT decided: consecutiveness/uniqueness over histories and threads.")
 
 S = 'FIX8::Session::'
 SEND_SEQ, RECV_SEQ = S + '_next_send_seq', S + '_next_receive_seq'
@@ -233,6 +233,9 @@ def run(ctx):
     ctx.units.update(MORE_UNITS)
     c25.lock_rule(ctx, prog2, 'R16.6')
     c18.retrans_seed_rule(ctx, prog2, 'R16.7')
+    # R16.8 the stored control record is the one a restart reads: it is rewritten in place, which needs store descriptors without O_APPEND (rule of C27 R27.7)
+    c27.positioned_writes_rule(ctx, prog2, 'R16.8')
+    ctx.floor('R16.8', 2)
     ctx.floor('R16.6', 5)
     ctx.floor('R16.7', 2)
     ctx.floor('R16.1', 12)
